@@ -424,11 +424,13 @@ VF_SECTION(b64_corrupt, 16, 16, 180) {
   uint64_t tally[6] = {0};
   std::string a4("\x00\xFF\x61\xFB", 4);
   // quick: inputs of length 1..4 over 4 symbols and of length 5..6 over the 2 symbols {00, FB};
-  // thorough: inputs of length 1..7 over 4 symbols.  (Rejected inputs cost a C++ throw each.)
-  size_t maxlen = r.thorough() ? 7 : 6;
+  // thorough: inputs of length 1..6 over 4 symbols and of length 7..9 (three encoded blocks) over
+  // {00, FB}.  (Rejected inputs cost a C++ throw each, ~6 us under ASan.)
+  size_t maxlen = r.thorough() ? 9 : 6;
+  size_t full_upto = r.thorough() ? 6 : 4;
   for (int m = 0; m < 2; m++) {
     for (size_t len = 1; len <= maxlen; len++) {
-      int bits_per_sym = (!r.thorough() && len >= 5) ? 1 : 2;
+      int bits_per_sym = len > full_upto ? 1 : 2;
       std::string x(len, 0);
       for (uint32_t k = 0; k < (1u << (bits_per_sym * len)); k++) {
         for (size_t i = 0; i < len; i++) x[i] = bits_per_sym == 2 ? a4[(k >> (2 * i)) & 3] : a4[((k >> i) & 1) * 3];
@@ -446,7 +448,7 @@ VF_SECTION(b64_corrupt, 16, 16, 180) {
     }
   }
   flush_decode_tally(r, tally);
-  r.bound = r.thorough() ? "every single-byte substitution (256 values x every position, the identity included) of the RFC 4648 encoding of every input of length 1..7 over {00,FF,'a',FB} x {default, URL-safe} alphabet"
+  r.bound = r.thorough() ? "every single-byte substitution (256 values x every position, the identity included) of the RFC 4648 encoding of every input of length 1..6 over {00,FF,'a',FB} and of length 7..9 over {00,FB} x {default, URL-safe} alphabet"
                          : "every single-byte substitution (256 values x every position, the identity included) of the RFC 4648 encoding of every input of length 1..4 over {00,FF,'a',FB} and of length 5..6 over {00,FB} x {default, URL-safe} alphabet";
 }
 
